@@ -67,7 +67,7 @@ def coq_cases(name, cases):
 def hook_run(reqs, timeout=300):
     hook = common.build_hook("sched")
     inp = "".join(json.dumps(r) + "\n" for r in reqs).encode()
-    p = subprocess.run([hook], input=inp, stdout=subprocess.PIPE, stderr=subprocess.PIPE, timeout=timeout)
+    p = subprocess.run([hook], input=inp, stdout=subprocess.PIPE, stderr=subprocess.PIPE, timeout=timeout, preexec_fn=common.limit_mem())
     res = {}
     for line in p.stdout.decode("utf8", "replace").splitlines():
         try:
